@@ -362,6 +362,14 @@ fn build_sidecar(parquet_path: &Path, dir: &Path, src_meta: &std::fs::Metadata) 
     // if the rename still loses, defer to whatever is there — the fresh
     // check on the next call decides.
     let final_dir = sidecar_dir(parquet_path);
+    // A cross-process racer may have published a complete, fresh sidecar
+    // while this build ran. Deleting it would pull the row-group files out
+    // from under readers that already passed the fresh check (their query
+    // then fails with ENOENT); keep the winner's and drop ours instead.
+    if is_fresh(&final_dir, src_meta) {
+        let _ = std::fs::remove_dir_all(&staging);
+        return Ok(());
+    }
     let _ = std::fs::remove_dir_all(&final_dir);
     if std::fs::rename(&staging, &final_dir).is_err() {
         let _ = std::fs::remove_dir_all(&staging);
